@@ -264,7 +264,9 @@ impl<K: SimKey> World<K> {
         let r = catch_unwind(AssertUnwindSafe(|| self.open_raw(&cfg)));
         match r {
             Err(p) => Err(fail(&["C02", "C03"], "panic-in-open", i, format!("open panicked: {}", panic_msg(p)))),
-            Ok(Err(e)) => Err(fail(&["C02"], "open-failed", i, format!("clean open failed: {e} ({e:?})"))),
+            // (C16: what the store wrote must decode again - a clean open that fails is, among other
+            // things, a broken round trip through the disk)
+            Ok(Err(e)) => Err(fail(&["C02", "C16"], "open-failed", i, format!("clean open failed: {e} ({e:?})"))),
             Ok(Ok(())) => {
                 // after a clean open of a fault-free history the scan must report nothing
                 if let (Some(s), true) = (&self.last_scan, self.exact_files) {
